@@ -11,7 +11,7 @@ const BasicPrivateTokenType = uint16(0x0001)
 type BasicPrivateTokenRequest struct {
 	raw        []byte
 	TokenKeyID uint8
-	BlindedReq []byte // 48 bytes
+	BlindedReq []byte // Ne bytes
 }
 
 func (r *BasicPrivateTokenRequest) TruncatedTokenKeyID() uint8 {
@@ -51,7 +51,7 @@ func (r *BasicPrivateTokenRequest) Unmarshal(data []byte) bool {
 	if !s.ReadUint16(&tokenType) ||
 		tokenType != BasicPrivateTokenType ||
 		!s.ReadUint8(&r.TokenKeyID) ||
-		!s.ReadBytes(&r.BlindedReq, 48) {
+		!s.ReadBytes(&r.BlindedReq, Ne) {
 		return false
 	}
 
